@@ -13,18 +13,22 @@
     What IS modelled, exactly as coded:
     - bgheader.DetectBGV (which generation a file is parsed as);
     - SignKM / SignBPM: prepare, serialise, cut at the signature offset the code
-      uses, sign with the key, store signature + public key + hash algorithm,
-      serialise again;
+      uses (since ee4d7c9 the same offset VerifyKM/VerifyBPM cut at, for all four
+      kinds of manifest), sign with the key, store signature + public key + hash
+      algorithm, serialise again;
     - VerifyKM / VerifyBPM: serialise the PARSED structure again (not the file
       bytes!), cut, verify with the embedded key; unknown Version => nil;
     - NewKM/NewBPM + Verify on a file;
     - KMHasBPMHash / BPMKeyMatchKMHash with fiano's hand-written ValidateBPMKey
       for both generations (hash = H alg (Key.Data[4:]), i.e. the modulus only);
+      since 24a2a40 BPMKeyMatchKMHash reports an error when it compared nothing
+      and both test the CBnT usage word with IsSet (bit 0), like ValidateBPMKey;
     - GetBPMPubHash on a KM OBJECT in an arbitrary state ([km_place]: replaces
       BGkm.BPKey / the whole CBNTkm.Hash list on success, leaves the object alone
       on an error) and histories of such calls interleaved with operations that
       do not concern the hash ([kmstep], [km_run]);
-    - writePrivKeyToFile/encryptPrivFile and DecryptPrivKey. *)
+    - writePrivKeyToFile/encryptPrivFile and DecryptPrivKey (since 4423a4c a file
+      shorter than the nonce is an error, not a panic). *)
 From CSS Require Import Lib.Base.
 
 Definition bytes := list Z.
@@ -89,7 +93,7 @@ Record env := {
   prep : gen -> doc -> M -> M;                (* SignKM: RehashRecursive; SignBPM: PMSE = *NewSignature(); RehashRecursive *)
   keysig_off : M -> nat;                      (* KM: KeyAndSignatureOffset(); CBnT BPM: field BPMH.KeySignatureOffset after WriteTo's Rehash *)
   pmse_off : M -> nat;                        (* BG BPM: Manifest.PMSEOffset() *)
-  pmse_ks_off : M -> nat;                     (* BG BPM: PMSE.KeySignatureOffset() — offset INSIDE the PMSE element *)
+  pmse_ks_off : M -> nat;                     (* BG BPM: PMSE.KeySignatureOffset() — offset INSIDE the PMSE element; where SignBPM cut before ee4d7c9, not used by the glue any more (kept for the case tables) *)
   pkhash : M -> Z;                            (* CBnT KM: PubKeyHashAlg *)
   store : gen -> doc -> M -> PK -> sigrec -> M;  (* the storing half of SetSignature (CBnT KM also copies the hash alg into PubKeyHashAlg) *)
   key_of : M -> PK;                           (* KeySignature.Key *)
@@ -103,10 +107,12 @@ Section Glue.
   Variable E : env.
 
   (** Where SignKM/SignBPM cut the serialisation.  BG 1.0 BPM:
-      [buf.Bytes()[:b.VData.BGbpm.PMSE.KeySignatureOffset()]]. *)
+      [buf.Bytes()[:b.VData.BGbpm.PMSEOffset()]] (it was
+      [PMSE.KeySignatureOffset()], an offset inside the signature element, before
+      the repair ee4d7c9). *)
   Definition sign_cut (g : gen) (d : doc) (m : M E) : nat :=
     match g, d with
-    | V10, BPM => pmse_ks_off E m
+    | V10, BPM => pmse_off E m
     | _, _ => keysig_off E m
     end.
 
@@ -208,7 +214,9 @@ Section Binding.
   Definition bg_km_has_bpm_hash (buf : bytes) : outcome bool :=
     if bg_has_hash buf then Ok true else Err 1.
 
-  (** BPMKeyMatchKMHash. *)
+  (** BPMKeyMatchKMHash: [Err 1] = "couldn't verify bpm hash in km", [Err 2] =
+      "couldn't find BPM hash in KM" (nothing was compared; before the repair
+      24a2a40 this case returned (true, nil)). *)
   Definition bg_key_match (alg : Z) (buf : bytes) (keyalg : Z) (keydata : bytes) : outcome bool :=
     if bg_has_hash buf then
       match check_key_hash bg_hash_size alg buf keyalg keydata with
@@ -217,7 +225,7 @@ Section Binding.
       | Panic => Panic
       | OutOfFuel => OutOfFuel
       end
-    else Ok true.
+    else Err 2.
 
   (** ** CBnT: KM.Hash is a list of (usage bitmask, algorithm, buffer) *)
   Record kmhash := mk_kmhash { kh_usage : Z; kh_alg : Z; kh_buf : bytes }.
@@ -240,28 +248,31 @@ Section Binding.
   Definition cbnt_validate (hs : list kmhash) (keyalg : Z) (keydata : bytes) : outcome unit :=
     cbnt_validate_from hs keyalg keydata 0.
 
-  (** KMHasBPMHash: an entry with [Usage == UsageBPMSigningPKD] (equality, not bit test). *)
+  (** KMHasBPMHash: an entry with [Usage.IsSet(UsageBPMSigningPKD)], i.e. bit 0 set
+      (it was [Usage == UsageBPMSigningPKD] before 24a2a40). *)
   Definition cbnt_has_hash (hs : list kmhash) : bool :=
-    existsb (fun h => kh_usage h =? UsageBPMSigningPKD) hs.
+    existsb (fun h => Z.odd (kh_usage h)) hs.
   Definition cbnt_km_has_bpm_hash (hs : list kmhash) : outcome bool :=
     if cbnt_has_hash hs then Ok true else Err 1.
 
-  (** BPMKeyMatchKMHash: for each entry with Usage == 1 run ValidateBPMKey (on the whole list). *)
-  Fixpoint cbnt_key_match_loop (l all : list kmhash) (keyalg : Z) (keydata : bytes) : outcome bool :=
+  (** BPMKeyMatchKMHash: for each entry whose usage has bit 0 set run ValidateBPMKey
+      (on the whole list); [compared] = bpmHashCompared: when no entry was looked at,
+      the result is the error "couldn't find BPM hash in KM" ([Err 2]). *)
+  Fixpoint cbnt_key_match_loop (l all : list kmhash) (keyalg : Z) (keydata : bytes) (compared : bool) : outcome bool :=
     match l with
-    | [] => Ok true
+    | [] => if compared then Ok true else Err 2
     | h :: t =>
-        if kh_usage h =? UsageBPMSigningPKD then
+        if Z.odd (kh_usage h) then
           match cbnt_validate all keyalg keydata with
-          | Ok _ => cbnt_key_match_loop t all keyalg keydata
+          | Ok _ => cbnt_key_match_loop t all keyalg keydata true
           | Err _ => Err 1
           | Panic => Panic
           | OutOfFuel => OutOfFuel
           end
-        else cbnt_key_match_loop t all keyalg keydata
+        else cbnt_key_match_loop t all keyalg keydata compared
     end.
   Definition cbnt_key_match (hs : list kmhash) (keyalg : Z) (keydata : bytes) : outcome bool :=
-    cbnt_key_match_loop hs hs keyalg keydata.
+    cbnt_key_match_loop hs hs keyalg keydata false.
 
   (** The binding check as bg-suite performs it: KM test requires KMHasBPMHash,
       BPM test requires BPMKeyMatchKMHash. *)
@@ -379,12 +390,14 @@ Section Wrap.
   Definition encrypt_priv (pw nonce pem : bytes) : bytes :=
     if is_empty pw then pem else nonce ++ seal K (Hpw K pw) nonce pem.
 
-  (** DecryptPrivKey.  [data[:12], data[12:]] panics on fewer than 12 bytes. *)
+  (** DecryptPrivKey.  With a password, fewer than 12 bytes (the GCM nonce) are
+      the error "encrypted key is too short" ([Err 3]; the slice [data[:12]]
+      panicked before the repair 4423a4c). *)
   Definition decrypt_priv (data pw : bytes) : outcome (KSK K) :=
     let finish (plain : bytes) :=
       match parse_key K plain with Some k => Ok k | None => Err 2 end in
     if is_empty pw then finish data
-    else if (length data <? nonce_size)%nat then Panic
+    else if (length data <? nonce_size)%nat then Err 3
     else match open K (Hpw K pw) (firstn nonce_size data) (skipn nonce_size data) with
          | None => Err 1
          | Some plain => finish plain
